@@ -75,8 +75,19 @@ func defaultWorkers() int {
 // of this binary, waits for them and merges what they found. The returned numbers are the sums over the shards and
 // the sizes of the united distinct sets (under "distinct:<name>").
 func runSharded(rc *RunCtx, rep *Report, nWorkers int, body func(sh Shard, rep *Report) *ShardResult) (map[string]int64, map[string]interface{}) {
+	stage := rc.stage
+	rc.stage++
 	if rc.Worker != "" {
-		sh := parseShard(rc.Worker)
+		spec, want := rc.Worker, 0
+		if i := strings.Index(spec, "@"); i >= 0 {
+			fmt.Sscan(spec[i+1:], &want)
+			spec = spec[:i]
+		}
+		if want != stage {
+			// another stage's worker: this stage contributes nothing to it
+			return map[string]int64{}, map[string]interface{}{}
+		}
+		sh := parseShard(spec)
 		res := body(sh, rep)
 		wr := rep.toWorkerResult(res.Numbers)
 		wr.Extra = res.Extra
@@ -95,7 +106,7 @@ func runSharded(rc *RunCtx, rep *Report, nWorkers int, body func(sh Shard, rep *
 		}
 		return nums, res.Extra
 	}
-	work := filepath.Join(rc.Root, ".work", fmt.Sprintf("%s-%d", rc.ID, os.Getpid()))
+	work := filepath.Join(rc.Root, ".work", fmt.Sprintf("%s-%d-s%d", rc.ID, os.Getpid(), stage))
 	_ = os.MkdirAll(work, 0o755)
 	defer os.RemoveAll(work)
 	exe, err := os.Executable()
@@ -114,7 +125,7 @@ func runSharded(rc *RunCtx, rep *Report, nWorkers int, body func(sh Shard, rep *
 		go func() {
 			defer wg.Done()
 			args := []string{"-test.run", "^TestCheck$", "-test.timeout", "0", "-check", rc.ID, "-tier", rc.Tier, "-root", rc.Root,
-				"-worker", fmt.Sprintf("%d/%d", i, nWorkers), "-out", outs[i]}
+				"-worker", fmt.Sprintf("%d/%d@%d", i, nWorkers, stage), "-out", outs[i]}
 			if !rc.Deadline.IsZero() {
 				left := rc.Deadline.Sub(realNow())
 				if left < 0 {
